@@ -142,6 +142,8 @@ pub struct CommitmentOracle {
 	pub saw_trimmed: bool,
 	pub saw_both_directions_pending: bool,
 	pub closed: Vec<bool>,
+	/// commitments already matched (replays of in-flight updates after a restart are legitimate)
+	matched: BTreeMap<(usize, usize, u64), bitcoin::Txid>,
 }
 
 impl CommitmentOracle {
@@ -158,6 +160,7 @@ impl CommitmentOracle {
 			saw_trimmed: false,
 			saw_both_directions_pending: false,
 			closed,
+			matched: BTreeMap::new(),
 		}
 	}
 	fn chan_idx(&self, cid: &ChannelId) -> Option<usize> {
@@ -311,6 +314,27 @@ impl Oracle for CommitmentOracle {
 						self.pending.entry((ci, side)).or_default().push(exp);
 					}
 				},
+				Obs::Restarted { node, lost_delivery, .. } => {
+					// the message being handled when the node died was never durably processed
+					if let Some((_from, wire)) = lost_delivery {
+						if let Some(cid) = wire.channel_id() {
+							if let Some(ci) = self.chan_idx(&cid) {
+								if let Some(side) = self.side(ci, *node) {
+									let was_commit = matches!(wire, Wire::Commit(_));
+									if matches!(wire, Wire::Add(_) | Wire::Fulfill(_) | Wire::Fail(_) | Wire::FailMalformed(_) | Wire::Fee(_) | Wire::Commit(_) | Wire::Raa(_)) {
+										self.models[ci].recv[side].pop();
+										if was_commit {
+											self.models[ci].commits_received[side] -= 1;
+											if let Some(q) = self.pending.get_mut(&(ci, side)) {
+												q.pop();
+											}
+										}
+									}
+								}
+							}
+						}
+					}
+				},
 				Obs::Disconnected { a, b } => {
 					for ci in 0..self.chans.len() {
 						if self.chans[ci].nodes == [*a.min(b), *a.max(b)] {
@@ -339,6 +363,10 @@ impl Oracle for CommitmentOracle {
 						let exp = match pos {
 							Some(p) => q.remove(p),
 							None => {
+								if self.matched.get(&(ci, side, hc.number)) == Some(&hc.txid) {
+									crate::runner::witness("holder-commitment-update-replayed-after-restart");
+									continue;
+								}
 								return Err(Failure::new(
 									"commitment-agreement",
 									format!(
@@ -351,6 +379,7 @@ impl Oracle for CommitmentOracle {
 						};
 						self.structural(ci, hc, "accepted holder")?;
 						self.compare(ci, side, &exp, hc)?;
+						self.matched.insert((ci, side, hc.number), hc.txid);
 						// the signer built the same transaction
 						if let Some(txid) = self.signed.get(&(ci, 1 - side, hc.number)) {
 							if *txid != hc.txid {
@@ -599,7 +628,7 @@ impl RevocationOracle {
 						if st.name == "CommitmentSecret" {
 							if let Some(idx) = st.number {
 								let e = self.cp_revoked_from.entry((ci, s)).or_insert(u64::MAX);
-								if *e != u64::MAX && idx + 1 != *e {
+								if *e != u64::MAX && idx + 1 != *e && idx != *e {
 									return Err(Self::fail(format!("node {} stored counterparty secret {} after {}", node, idx, *e)));
 								}
 								*e = idx;
@@ -619,7 +648,7 @@ impl RevocationOracle {
 						}
 					}
 				},
-				Obs::Restarted { node } => {
+				Obs::Restarted { node, .. } => {
 					// whatever the restarted node reloaded is durable by construction
 					for ((_, s), m) in self.holder_accepted.iter_mut() {
 						let _ = s;
@@ -876,12 +905,17 @@ impl PersistOrderOracle {
 						}
 					}
 				},
-				Obs::Restarted { node } => {
-					// in-flight updates are replayed with their original ids after a restart
+				Obs::Restarted { node, chosen, .. } => {
+					// in-flight updates are replayed gap-free on top of the monitor that was loaded
 					let keys: Vec<(usize, usize)> = self.last_id.keys().filter(|k| k.0 == *node).cloned().collect();
 					for k in keys {
 						self.last_id.remove(&k);
 						self.outstanding.remove(&k);
+					}
+					for (cid, id) in chosen.iter() {
+						if let Some(ci) = self.chan_idx(cid) {
+							self.last_id.insert((*node, ci), *id);
+						}
 					}
 				},
 				Obs::Sig(SigEv::SignCounterpartyCommitment { node, keys_id, info }) => {
